@@ -8,10 +8,11 @@ os.chdir(V)
 props = [json.loads(l) for l in open('properties.jsonl')]
 checks, na = [], []
 PENDING = json.load(open('tools/not_applicable.json')) if os.path.exists('tools/not_applicable.json') else {}
+REGISTERED = set(json.load(open('tools/registered.json')))
 for p in props:
     pid = p['id']
     fs = glob.glob('checks/%s_*.py' % pid.lower())
-    if not fs:
+    if not fs or pid not in REGISTERED:
         na.append({'property_id': pid, 'reason': PENDING.get(pid, 'no check registered yet for this property (machinery under construction)')})
         continue
     src = open(fs[0]).read()
